@@ -90,7 +90,16 @@ class Run(RunBase):
         self.disk = {}           # slot -> {"file": SimFile or bytes, "groups": [(name, N, NGF, gen)]}
         self.open_files = []
         self.gen = 0
-        if world["birth"] == "ctor":
+        if world["birth"] == "ctor" and world.get("own_crystal"):
+            # the calculator gets a Crystal object of its own, on which the caller has already built and used a
+            # different (decoy) Green-function calculator: whatever a Crystal remembers between calls must not leak
+            crys = CRYSTALS[world["crystal"]][0]()
+            self.decoy_on(crys, world["pool_seed"])
+            chem = self.wd.chem
+            self.calc = OnsagerCalc.VacancyMediated(crys, chem, crys.sitelist(chem), crys.jumpnetwork(chem, self.wd.cut),
+                                                    self.N, NGFmax=self.NGF)
+            self.faults["calculator-on-used-crystal-object"] += 1
+        elif world["birth"] == "ctor":
             self.calc = self.wd.construct(self.N, self.NGF)
         else:
             self.calc = self.load_bytes(self.wd.image(self.N, self.NGF), "calc", keep_open=False)
@@ -238,10 +247,10 @@ class Run(RunBase):
         # op kind by weight (swarm: the per-run weights are jittered by the world's mix seed)
         if c13:
             table = (("call", 34), ("scribble", 8), ("clearcache", 4), ("regen", 8), ("regrid", 5), ("foreign", 5),
-                     ("badcall", 4), ("fork", 10), ("refork", 5), ("supercells", 4), ("component", 13), ("aux", 4))
+                     ("badcall", 4), ("fork", 10), ("refork", 5), ("supercells", 4), ("component", 13), ("aux", 4), ("decoy", 3))
         else:
             table = (("call", 40), ("scribble", 12), ("clearcache", 5), ("regen", 9), ("regrid", 5), ("foreign", 5),
-                     ("badcall", 5), ("save", 10), ("restart", 9), ("aux", 5))
+                     ("badcall", 5), ("save", 10), ("restart", 9), ("aux", 5), ("decoy", 3))
         mix = random.Random(self.w["pool_seed"] ^ 0x5eed)
         weights = [wt * mix.choice((0.3, 1.0, 1.0, 2.0)) for _, wt in table]
         kind = rng.choices([k for k, _ in table], weights=weights)[0]
@@ -268,6 +277,8 @@ class Run(RunBase):
             return {"op": "badcall", "k": rng.randrange(npool), "kind": rng.choice(BADKINDS)}
         if kind == "fork":
             return self.gen_fork(rng)
+        if kind == "decoy":
+            return {"op": "decoy", "seed": rng.randrange(6)}
         if kind == "aux":
             return {"op": "aux", "what": rng.choice(AUX), "k": rng.randrange(npool), "how": rng.choice(SCRIBBLES)}
         if kind == "refork":
@@ -534,6 +545,36 @@ class Run(RunBase):
             if abs(vals[0] - vals[1]) > tol * max(abs(vals[0]), 1e-300):
                 self.fail("twin-gf", "GF value after SetRates: original {!r}, reloaded copy {!r}".format(vals[0], vals[1]))
         return "G " + fhex(vals[0])
+
+    def decoy_on(self, crys, seed):
+        """What another part of the caller's program does with the same Crystal object: builds a Green-function
+        calculator for another jump network and k-mesh, uses it, and edits in place the (freshly built) lists and
+        arrays the crystal's queries handed out."""
+        chem = self.wd.chem
+        cut2 = self.wd.cut * (1.3 if seed % 2 else 0.999)
+        sl, jn = crys.sitelist(chem), crys.jumpnetwork(chem, cut2)
+        if jn:
+            g = GFcalc.GFCrystalcalc(crys, chem, sl, jn, 3 if seed % 3 else 1)
+            g.SetRates(np.ones(len(sl)), np.zeros(len(sl)), np.ones(len(jn)), np.array([0.5 + 0.1 * i for i in range(len(jn))]))
+            g(0, 0, np.zeros(crys.dim))
+        for jl in jn:
+            for ij, dx in jl:
+                dx *= 0.0
+            del jl[1:]
+        for lst in sl:
+            lst.reverse()
+        kpts = crys.fullkptmesh([4] * crys.dim)
+        red = crys.reducekptmesh(kpts)
+        kpts *= 0.0
+        for a in red:
+            if isinstance(a, np.ndarray):
+                a *= 0.0
+
+    def op_decoy(self, index, op):
+        for calc, _ in self.targets():
+            self.decoy_on(calc.crys, int(op.get("seed", 0)))
+        self.faults["decoy-calculator-on-same-crystal"] += 1
+        return "decoy"
 
     def op_badcall(self, index, op):
         """An input that makes the call raise (or return NaN); the run continues."""
@@ -937,8 +978,8 @@ class Engine(object):
         ranges = rng.choice(([1], [1], [2], [1, 2], [1, 2]))
         if c in ("hcp", "b2disp", "tet2w", "mono") and self.tier != "thorough" and ranges != [1] and rng.random() < 0.6:
             ranges = [1]
-        if c == "scnosym" and not (self.tier == "thorough" and rng.random() < 0.15):
-            ranges = [1]          # 189 vector stars at range 2 (9 s per build): thorough tier only, rarely
+        if c == "scnosym":
+            ranges = [1]          # 189 vector stars at range 2 (9 s per build, several builds per run): not drawn
         grids = rng.choice(([2], [2, 3], [2, 3])) if self.tier != "thorough" else rng.choice(([2], [2, 3], [3, 4], [2, 4]))
         if self.tier == "thorough" and c in ("square", "tria", "honey", "rect2w", "rect4i", "triadisp") and rng.random() < 0.3:
             ranges = rng.choice(([1, 3], [2, 3], [1, 2, 3]))     # deeper thermodynamic ranges where they are cheap
@@ -946,6 +987,7 @@ class Engine(object):
              "birth": rng.choice(("ctor", "image", "image")), "pool_seed": rng.randrange(1 << 30),
              "buffers": rng.random() < 0.5}
         w["memo_inputs"] = rng.random() < 0.5
+        w["own_crystal"] = rng.random() < 0.5
         w["class"] = "{}/N{}/G{}".format(c, "".join(map(str, ranges)), "".join(map(str, grids)))
         return w
 
